@@ -33,35 +33,36 @@ def generate():
     bo_f = num("factor"); bo_j = num("jitter_secs")
     issue_size = num("issue_cache_size"); bcast = num("issue_broadcast_size")
     dedup = dur("issue_deduplication_window"); swap = num("path_swap_score_threshold")
-    # the validator: exactly these two rejections
-    need(t, r"fn validate\(&self\).*?if self\.min_refetch_delay > self\.refetch_interval \{.*?return Err.*?"
-            r"if self\.min_refetch_delay > self\.min_expiry_threshold \{.*?return Err.*?\n\s*Ok\(\(\)\)\n\s*\}",
-         "MultiPathManagerConfig::validate (two rejections)", relm, re.S)
-    # issue manager: dedup test, eviction trigger
-    need(t, r"if time_since_last_seen < self\.deduplication_window \{", "add_issue dedup window test", relm)
-    need(t, r"while self\.cache\.len\(\) >= self\.max_entries \{\s*if self\.fifo_issues\.is_empty\(\) \{\s*break;\s*\}\s*self\.pop_front\(\);\s*\}",
-         "add_issue: eviction loop (pop until room or FIFO empty)", relm)
-    need(t, r"if self\.fifo_issues\.len\(\) >= 2 \* self\.max_entries\.max\(1\) \{\s*let cache = &self\.cache;\s*self\.fifo_issues\s*"
-            r"\.retain\(\|\(fid, ts\)\| cache\.get\(fid\)\.is_some_and\(\|m\| m\.timestamp == \*ts\)\);", "add_issue: FIFO compaction at 2 * max(max_entries, 1)", relm)
-    need(t, r"self\.fifo_issues\.push_back\(\(id, marker\.timestamp\)\);[^\n]*\n\s*self\.cache\.insert\(id, marker\);", "add_issue: push FIFO entry, insert", relm)
-    need(t, r"let expired = active\.is_expired\(timestamp\)\.unwrap_or\(false\);\s*(?://[^\n]*\n\s*)*if expired \{\s*return None;\s*\}",
-         "cached_path: expired path is not handed out", relm)
-    need(t, r"let expired = active\.is_expired\(timestamp\)\.unwrap_or\(false\);\s*(?://[^\n]*\n\s*)*if expired \{\s*return Err\(Arc::new\(PathFetchError::NoPathsFound\)\);\s*\}",
-         "path: expired path is not handed out", relm)
-    need(t, r"if occupied_entry\.get\(\)\.timestamp == timestamp \{", "pop_front timestamp test", relm)
+    # ---- mirrored statements: SOFT (expect).  The hook-driven harness observes their behaviour after
+    # every event (cache contents and order, slot, timers, counters, issue-memory sizes, every send
+    # result, rejected configurations), so a miss only enlarges the correspondence run.  The regular
+    # expressions pin operators / constants / callee names, not layout or local names.
+    W = r"[\s\S]{0,400}?"      # a little code in between
+    expect(t, r"fn validate\(&self\)" + W + r"min_refetch_delay\s*>\s*self\.refetch_interval" + W + r"Err" + W +
+              r"min_refetch_delay\s*>\s*self\.min_expiry_threshold" + W + r"Err",
+           "MultiPathManagerConfig::validate (two rejections)", relm)
+    expect(t, r"<\s*self\.deduplication_window", "add_issue dedup window test", relm)
+    expect(t, r"while\s+self\.cache\.len\(\)\s*>=\s*self\.max_entries\b" + W + r"self\.fifo_issues\.is_empty\(\)" + W + r"self\.pop_front\(\)",
+           "add_issue: eviction loop (pop until room or FIFO empty)", relm)
+    expect(t, r"self\.fifo_issues\.len\(\)\s*>=\s*2\s*\*\s*self\.max_entries\.max\(1\)" + W + r"\.retain\(" + W + r"\.timestamp\s*==",
+           "add_issue: FIFO compaction at 2 * max(max_entries, 1)", relm)
+    expect(t, r"self\.fifo_issues\.push_back\(" + W + r"self\.cache\.insert\(", "add_issue: push FIFO entry, insert", relm)
+    expect(t, r"fn cached_path\(" + r"[\s\S]{0,1800}?" + r"\.is_expired\(\w+\)\.unwrap_or\(false\)" + W + r"return None",
+           "cached_path: expired path is not handed out", relm)
+    expect(t, r"pub async fn path\(" + r"[\s\S]{0,3500}?" + r"\.is_expired\(\w+\)\.unwrap_or\(false\)" + W + r"Err\(" + W + r"NoPathsFound",
+           "path: expired path is not handed out", relm)
+    expect(t, r"\.timestamp\s*==\s*timestamp", "pop_front timestamp test", relm)
 
     relp = "crates/scion-stack/src/path/manager/pathset.rs"
     p = src(relp)
-    need(p, r"let refetch_candidate = match self\.earliest_expiry\(\) \{\s*(?://[^\n]*\n\s*)*Some\(earliest_expiry\) => \{\s*"
-            r"\(now \+ self\.config\.refetch_interval\)\s*\.min\(earliest_expiry - self\.config\.min_expiry_threshold\)\s*\}\s*"
-            r"None => now,\s*\};", "next_refetch candidate (success; empty cache => now)", relp)
-    need(p, r"self\.internal\.next_refetch =\s*refetch_candidate\s*(?://[^\n]*\n\s*)*\.max\(now \+ self\.config\.min_refetch_delay\);",
-         "next_refetch formula (success)", relp)
-    need(p, r"\.duration\(self\.internal\.failed_attempts\)\s*\.max\(self\.config\.min_refetch_delay\)", "next_refetch formula (failure)", relp)
-    need(p, r"Ok\(time_left\) if time_left == Duration::from_secs\(0\) => ExpiryState::Expired,\s*"
-            r"Ok\(time_left\) if time_left <= threshold => ExpiryState::NearExpiry,", "check_path_expiry arms", relp)
-    need(p, r"if diff > self\.config\.path_swap_score_threshold \{", "swap threshold test", relp)
-    need(p, r"ord != Ordering::Greater", "merge tie rule (prefer existing)", relp)
+    expect(p, r"self\.earliest_expiry\(\)" + W + r"now \+ self\.config\.refetch_interval\)?\s*\.min\(\s*\w+ - self\.config\.min_expiry_threshold\s*\)" + W + r"None\s*=>\s*now\b",
+           "next_refetch candidate (success; empty cache => now)", relp)
+    expect(p, r"self\.internal\.next_refetch\s*=" + r"[\s\S]{0,200}?" + r"\.max\(\s*now \+ self\.config\.min_refetch_delay\s*\)",
+           "next_refetch formula (success)", relp)
+    expect(p, r"\.duration\(self\.internal\.failed_attempts\)\s*\.max\(\s*self\.config\.min_refetch_delay\s*\)", "next_refetch formula (failure)", relp)
+    expect(p, r"fn check_path_expiry\(" + W + r"=>\s*ExpiryState::Expired" + W + r"<=\s*threshold\s*=>\s*ExpiryState::NearExpiry", "check_path_expiry arms", relp)
+    expect(p, r">\s*self\.config\.path_swap_score_threshold", "swap threshold test", relp)
+    expect(p, r"rank_order\(" + r"[\s\S]{0,200}?" + r"!=\s*Ordering::Greater", "merge tie rule (prefer existing)", relp)
 
     relr = "crates/scion-stack/src/path/manager/reliability.rs"
     r = src(relr)
@@ -79,7 +80,7 @@ def generate():
     pen_if = Fraction(mm.group(1)) if mm else 0
     mm = need(i, r"SendError::FirstHopUnreachable \{ \.\. \} => (-?[0-9.]+),", "penalty first hop", reli)
     pen_fh = Fraction(mm.group(1)) if mm else 0
-    need(i, r"while let Some\(interface\) = iter\.nth\(1\) \{", "matches_path nth(1) walk", reli)
+    expect(i, r"\.nth\(1\)", "matches_path nth(1) walk", reli)
 
     rels = "crates/scion-stack/src/path/strategy/scoring.rs"
     s = src(rels)
@@ -96,12 +97,11 @@ def generate():
 
     relb = "crates/libs/scion-sdk-utils/src/backoff.rs"
     b = src(relb)
-    need(b, r"let backoff = self\.config\.minimum_delay_secs \* self\.config\.factor\.powi\(attempt as i32\);\s*"
-            r"let backoff = backoff \+ rand::random::<f32>\(\) \* self\.config\.jitter_secs;\s*"
-            r"Duration::from_secs_f32\(backoff\.min\(self\.config\.maximum_delay_secs\)\)", "ExponentialBackoff::duration formula", relb)
+    expect(b, r"minimum_delay_secs\s*\*\s*self\.config\.factor\.powi\(" + r"[\s\S]{0,300}?" + r"rand::random::<f32>\(\)\s*\*\s*self\.config\.jitter_secs" +
+              r"[\s\S]{0,300}?" + r"\.min\(self\.config\.maximum_delay_secs\)", "ExponentialBackoff::duration formula", relb)
 
     relpol = "crates/scion-stack/src/path/strategy/policy.rs"
-    need(src(relpol), r"path_allowed\(self, path\)\.unwrap_or\(false\)", "blanket policy impl: error => not allowed", relpol)
+    expect(src(relpol), r"path_allowed\(" + r"[\s\S]{0,80}?" + r"\.unwrap_or\(false\)", "blanket policy impl: error => not allowed", relpol)
 
     def ns(fr): return int(Fraction(fr) * NS)
     body = f"""From Coq Require Import NArith QArith.
